@@ -11,7 +11,7 @@ def main():
         owner = d.get('decided_by', d['property'])
         own = d.get('checks_run', {}).get(owner, {})
         keys = ', '.join('`%s`' % k for k in own.get('keys', [])[:2]) or '-'
-        caught = ('yes' if owner in d.get('caught_by', []) else 'NO') + ('' if owner == d['property'] else ' (by %s: shows under concurrency only)' % owner)
+        caught = ('yes' if owner in d.get('caught_by', []) else 'NO') + ('' if owner == d['property'] else ' (by %s: %s)' % (owner, d.get('decided_by_reason', 'shows under concurrency only')))
         others = [c for c in d.get('caught_by', []) if c != owner]
         conf = 'yes' if d.get('confirmation', {}).get('confirmed') else 'no'
         cross = '?'
